@@ -54,7 +54,8 @@ func (dm *defaultMkdirerSimple) checkRoots(roots []*Node) error {
 
 func (dm *defaultMkdirerSimple) isExistRoot(roots []*Node) bool {
 	for _, root := range roots {
-		if _, err := os.Stat(filepath.Join(dm.targetDir, root.path())); !os.IsNotExist(err) {
+		// Lstat: a symbolic link at the root's path exists even when it points to nothing
+		if _, err := os.Lstat(filepath.Join(dm.targetDir, root.path())); !os.IsNotExist(err) {
 			return true
 		}
 	}
